@@ -159,6 +159,15 @@ CONTROLS = [
         '                                let x = String::from(x.str(&s));\n                                Some(x)', '                                let x = String::from(x.str(&s).trim_end());\n                                Some(x)', 1)]),
     ('w6-public-entry-shortcut', 'W6', 'syn', 'preprocess:result-not-from-string-entry', [(PPF,
         ') -> Result<(PreprocessedText, Defines), Error> {\n    preprocess_inner(', ') -> Result<(PreprocessedText, Defines), Error> {\n    if path.as_ref().as_os_str().is_empty() {\n        return Ok((PreprocessedText::new(), HashMap::new()));\n    }\n    preprocess_inner(', 1)]),
+    ('g5-undef-missing-from-trivia-list', 'G5', 'syn', 'compiler_directive_without_resetall:sibling-list-differs', [(CD,
+        'pub(crate) fn compiler_directive_without_resetall(s: Span) -> IResult<Span, CompilerDirective> {\n    begin_directive();\n    let ret = alt((\n        map(include_compiler_directive, |x| {\n            CompilerDirective::IncludeCompilerDirective(Box::new(x))\n        }),\n        map(text_macro_definition, |x| {\n            CompilerDirective::TextMacroDefinition(Box::new(x))\n        }),\n        map(undefine_compiler_directive, |x| {\n            CompilerDirective::UndefineCompilerDirective(Box::new(x))\n        }),\n',
+        'pub(crate) fn compiler_directive_without_resetall(s: Span) -> IResult<Span, CompilerDirective> {\n    begin_directive();\n    let ret = alt((\n        map(include_compiler_directive, |x| {\n            CompilerDirective::IncludeCompilerDirective(Box::new(x))\n        }),\n        map(text_macro_definition, |x| {\n            CompilerDirective::TextMacroDefinition(Box::new(x))\n        }),\n', 1)]),
+    ('x13-lookup-flattened', 'X13', 'syn', 'resolve_text_macro_usage:bodyless', [(PPF,
+        '    let define = defines.get(&id);\n    if let Some(Some(define)) = define {', '    let define = defines.get(&id).and_then(|x| x.as_ref());\n    if let Some(define) = define {', 1),
+        (PPF, '    } else if define.is_some() {\n        Ok(None)\n    } else {', '    } else {', 1)]),
+    ('t4-token-fast-path-forward', 'T4', 'syn', "Iter<'a>", [('sv-parser-syntaxtree/src/any_node.rs',
+        '        if let Some(x) = ret.clone() {\n            let mut x = x.next();\n            x.0.reverse();\n            self.next.0.append(&mut x.0);\n        }',
+        '        if let Some(RefNode::Symbol(Symbol { nodes: (locate, ws) })) = ret.clone() {\n            self.next.0.extend(ws.iter().map(RefNode::WhiteSpace));\n            self.next.0.push(RefNode::Locate(locate));\n        } else if let Some(x) = ret.clone() {\n            let mut x = x.next();\n            x.0.reverse();\n            self.next.0.append(&mut x.0);\n        }', 1)]),
     ('x11-include-unguarded', 'X11', 'syn', 'open-unguarded', [(PPF, 'NodeEvent::Enter(RefNode::IncludeCompilerDirective(x)) if !ignore_include => {', 'NodeEvent::Enter(RefNode::IncludeCompilerDirective(x)) => {', 1)]),
     ('x12-search-reversed', 'X12', 'syn', 'search-order', [(PPF, '                    for include_path in include_paths {', '                    for include_path in include_paths.iter().rev() {', 1)]),
     ('p2-utf8-error-without-path', 'P2', 'syn', 'read-error', [(PPF, 'Err(Error::ReadUtf8(PathBuf::from(path.as_ref())))', 'Err(Error::ReadUtf8(PathBuf::new()))', 1)]),
